@@ -559,6 +559,31 @@ def gen_ptypes():
         return 'Definition gen_s2k_count (c : Z) : Z :=\n %s.\n' % tr.block(ms[0].body)
     guarded(out, 'String2Key.count', t_count)
 
+    def t_derive():
+        # the straight-line arithmetic of derive_key: count, hcount, hleft as functions of
+        # (specifier, decoded count, len(hsalt + hpass))
+        fn = find_method(s2k, 'derive_key')
+        stmts = [st for st in fn.body
+                 if (isinstance(st, ast.Assign) and ast.unparse(st.targets[0]) in ('count', 'hcount', 'hleft'))
+                 or (isinstance(st, ast.If) and ast.unparse(st.body[0]) == 'count = self.count')]
+        if [type(st).__name__ for st in stmts] != ['Assign', 'If', 'Assign', 'Assign'] or \
+                [ast.unparse(st.targets[0]) for st in stmts if isinstance(st, ast.Assign)] != ['count', 'hcount', 'hleft'] or \
+                len(stmts[1].body) != 1 or stmts[1].orelse:
+            raise Unsupported('derive_key arithmetic shape')
+        sl = [st for st in fn.body if isinstance(st, ast.Assign) and ast.unparse(st.targets[0]) == 'hashdata']
+        if len(sl) != 1 or ast.unparse(sl[0].value) != '(hsalt + hpass) * hcount + (hsalt + hpass)[:hleft]':
+            raise Unsupported('derive_key hashdata shape')
+        atoms = {'len(hsalt + hpass)': ('l', 'Z'), 'self.specifier': ('spec', 'Z'), 'self.count': ('dcount', 'Z'),
+                 'String2KeyType.Iterated': ('(3)', 'Z')}
+        class T3(Tr):
+            def key(self, e):
+                u = ast.unparse(e)
+                return u if u in atoms else super().key(e)
+        tr = T3(names=atoms)
+        ret = ast.parse('def f():\n return (count, hcount, hleft)').body[0].body[0]
+        return 'Definition gen_s2k_arith (spec dcount l : Z) : Z * Z * Z :=\n %s.\n' % tr.block(stmts + [ret])
+    guarded(out, 'String2Key.derive_key arithmetic', t_derive)
+
     txt = '\n'.join(out).replace('encode_length_gen', 'gen_encode_length')
     txt = txt.replace('Require Import PV.Lib.Bytes.', 'Require Import PV.Lib.Bytes PV.Gen.Gen_types.')
     write('Gen_ptypes.v', txt)
